@@ -59,6 +59,8 @@ pub enum Reply {
     Dropped(String),
     /// answer only after being released
     Hold,
+    /// answer only after being released, and then with a well formed answer signed by another key
+    HoldThenWrongKey,
     /// close the connection without answering
     Hangup,
     /// 200 with exactly these bytes
@@ -70,6 +72,8 @@ pub struct Seen {
     pub path: String,
     pub body: Value,
     pub at: Instant,
+    /// when the answer had been written (None: not yet)
+    pub answered_at: Option<Instant>,
     pub answered_with: Reply,
 }
 
@@ -211,6 +215,7 @@ fn handle(mut stream: TcpStream, state: Arc<Mutex<TowerState>>, keys: Keys) {
     let _ = reader.read_exact(&mut body);
     let body_json: Value = serde_json::from_slice(&body).unwrap_or(Value::Null);
 
+    let log_idx;
     let reply = {
         let mut st = state.lock().unwrap();
         let mut r = st.script.get_mut(&path).and_then(|q| q.pop_front()).or_else(|| st.default.get(&path).cloned()).unwrap_or(Reply::Accept);
@@ -225,7 +230,8 @@ fn handle(mut stream: TcpStream, state: Arc<Mutex<TowerState>>, keys: Keys) {
             st.in_flight_add += 1;
             st.max_in_flight_add = st.max_in_flight_add.max(st.in_flight_add);
         }
-        st.log.push(Seen { path: path.clone(), body: body_json.clone(), at: Instant::now(), answered_with: r.clone() });
+        st.log.push(Seen { path: path.clone(), body: body_json.clone(), at: Instant::now(), answered_at: None, answered_with: r.clone() });
+        log_idx = st.log.len() - 1;
         r
     };
     let done = |state: &Arc<Mutex<TowerState>>| {
@@ -234,8 +240,11 @@ fn handle(mut stream: TcpStream, state: Arc<Mutex<TowerState>>, keys: Keys) {
         if path == "/add_appointment" {
             st.in_flight_add -= 1;
         }
+        if let Some(s) = st.log.get_mut(log_idx) {
+            s.answered_at = Some(Instant::now());
+        }
     };
-    if reply == Reply::Hold {
+    if reply == Reply::Hold || reply == Reply::HoldThenWrongKey {
         let start = Instant::now();
         while !state.lock().unwrap().release && start.elapsed() < Duration::from_secs(30) {
             std::thread::sleep(Duration::from_millis(5));
@@ -265,7 +274,7 @@ fn handle(mut stream: TcpStream, state: Arc<Mutex<TowerState>>, keys: Keys) {
         }
         "/add_appointment" => {
             let user_sig = body_json["signature"].as_str().unwrap_or("").to_owned();
-            let signer = if reply == Reply::WrongKey { Keys::from_byte(0x5e) } else { keys.clone() };
+            let signer = if reply == Reply::WrongKey || reply == Reply::HoldThenWrongKey { Keys::from_byte(0x5e) } else { keys.clone() };
             let mut r = AppointmentReceipt::new(user_sig, 1234);
             r.sign(&signer.sk);
             let sig = if let Reply::BadSignature(s) = &reply { s.clone() } else { r.signature().unwrap() };
@@ -275,7 +284,7 @@ fn handle(mut stream: TcpStream, state: Arc<Mutex<TowerState>>, keys: Keys) {
         _ => json!({"error": "unknown endpoint", "error_code": 6}),
     };
     let bytes: Option<Vec<u8>> = match &reply {
-        Reply::Accept | Reply::Hold | Reply::WrongKey | Reply::BadSignature(_) => Some(http_reply(200, valid.to_string().as_bytes(), "application/json")),
+        Reply::Accept | Reply::Hold | Reply::HoldThenWrongKey | Reply::WrongKey | Reply::BadSignature(_) => Some(http_reply(200, valid.to_string().as_bytes(), "application/json")),
         Reply::Mutated(field, v) => {
             let mut x = valid.clone();
             x[field] = v.clone();
